@@ -27,10 +27,12 @@ package store
 //@   |   && forall_int(a, forall_int(b, validPair(backends, a, b) && matchAt(path, backends, a, b) ==> len(prefixAt(backends, a, b)) <= len(prefixAt(backends, i, j))))))
 //@   ensures[C17:id-of-input] r1 == nil ==> exists(i, 0, len(backends), r0 == idAt(backends, i))
 //@   loop 1
+//@     at for _, b := range backends
 //@     invariant[C18:o-range] -1 <= idx && idx < max(len(backends), 1) && (len(backends) == 0 ==> idx == -1)
 //@     invariant[C18:o-none] closestMatch == "" <==> noneSeen(path, backends, idx + 1, -1)
 //@     invariant[C18:o-best] closestMatch != "" ==> bestSeen(path, backends, idx + 1, -1, closestMatch, longestMatchingPath)
 //@   loop 2
+//@     at for _, p := range b.PathPrefixes
 //@     invariant[C18:i-range] 0 <= idx1 && idx1 < len(backends) && b == backends[idx1] && -1 <= idx && idx < max(len(b.PathPrefixes), 1) && (len(b.PathPrefixes) == 0 ==> idx == -1)
 //@     invariant[C18:i-none] closestMatch == "" <==> noneSeen(path, backends, idx1, idx)
 //@     invariant[C18:i-best] closestMatch != "" ==> bestSeen(path, backends, idx1, idx, closestMatch, longestMatchingPath)
@@ -56,6 +58,7 @@ package store
 //@   ensures[C19:one-part-per-window-in-order] r1 == nil ==> len(r0) == len(bytes) / 1000000 + 1 && puts == len(r0) && forall(j, 0, len(r0), r0[j] == sprintf("%s.part%d", blobName, j))
 //@   ensures[C19:no-names-on-error] r1 != nil ==> len(r0) == 0
 //@   loop 1
+//@     at for i := 0; i < partCount; i++
 //@     invariant[C19:split-progress] 0 <= i && i <= partCount && partCount == len(bytes) / 1000000 + 1 && len(partNames) == i && puts == i && errs != nil && !closed(errs) && chcap(errs) == partCount && 0 <= chlen(errs) && chlen(errs) <= i
 //@     invariant[C19:names-in-order] forall(j, 0, i, partNames[j] == sprintf("%s.part%d", blobName, j))
 
@@ -76,6 +79,7 @@ package store
 //@     do fetched = fetched + 1
 //@   ensures[C19:inline-only] len(old(bp.Parts)) == 0 ==> r1 == nil && r0 == old(bp.Inlined)
 //@   loop 1
+//@     at for _, part := range bp.Parts
 //@     invariant[C19:keys-in-order] len(keys) == idx + 1 && len(parts) == idx + 1 && fetched == 0 && forall(j, 0, idx + 1, keyKind(keys[j]) == "blobParts" && keyName(keys[j]) == bp.Parts[j])
 
 // ---- stored requests and responses (C19): each direction has its own blob name and its own datastore key ----
@@ -169,6 +173,7 @@ package store
 //@ func (*persistentStore).WriteResponse props(C19,C07)
 //@   requires r != nil
 //@ func (*persistentStore).WriteResponse$2 props(C19,C07)
+//@   at _, err = newStoredResponse(ctx, r)
 //@   requires r != nil
 //@   ghost n int = 0
 //@   call newStoredResponse
